@@ -304,26 +304,91 @@ func (h *c08Helper) RunID() string                                { return "c08-
 
 const banner = "SSH-2.0-c08 backend speaks first\r\n"
 
-func xtcpRoundTrip(protocol string, ue, uc, speaksFirst, userWritesFirst bool, payload []byte, wait time.Duration) (ok bool, backendConns int, err error) {
+// recBackend is a backend that (optionally) speaks first, then reads exactly n bytes, remembers them and answers
+// with reply; what it received is compared with what the user sent (an echo alone would hide a garbling that the
+// way back undoes).
+type recBackend struct {
+	l     net.Listener
+	mu    sync.Mutex
+	conns int
+	got   chan []byte
+}
+
+func startRecBackend(addr, first string, n int, reply []byte) (*recBackend, error) {
+	l, err := net.Listen("tcp", net.JoinHostPort(addr, "0"))
+	if err != nil {
+		return nil, err
+	}
+	b := &recBackend{l: l, got: make(chan []byte, 4)}
+	go func() {
+		for {
+			c, err := l.Accept()
+			if err != nil {
+				return
+			}
+			b.mu.Lock()
+			b.conns++
+			b.mu.Unlock()
+			go func() {
+				defer c.Close()
+				if first != "" {
+					_, _ = io.WriteString(c, first)
+				}
+				buf := make([]byte, n)
+				_ = c.SetReadDeadline(time.Now().Add(8 * time.Second))
+				m, _ := io.ReadFull(c, buf)
+				b.got <- buf[:m]
+				if m == n {
+					_, _ = c.Write(reply)
+					_, _ = io.Copy(io.Discard, c)
+				}
+			}()
+		}
+	}()
+	return b, nil
+}
+
+func (b *recBackend) port() int { return b.l.Addr().(*net.TCPAddr).Port }
+func (b *recBackend) count() int {
+	b.mu.Lock()
+	defer b.mu.Unlock()
+	return b.conns
+}
+
+// xtcpRun: one stream through an established xtcp tunnel. vue/vuc are the visitor's declared flags, pue/puc the
+// proxy's. userSilent: the user sends nothing before it has read the backend's first bytes (needs speaksFirst).
+type xtcpRun struct {
+	protocol             string
+	vue, vuc, pue, puc   bool
+	speaksFirst, silent  bool
+	payload              []byte
+	wait                 time.Duration
+}
+
+func xtcpRoundTrip(x xtcpRun) (ok bool, backendConns int, err error) {
 	ctx, cancel := context.WithCancel(context.Background())
 	defer cancel()
-	label := ""
-	if speaksFirst {
-		label = banner
+	first := ""
+	if x.speaksFirst {
+		first = banner
 	}
-	echo, err := hx.StartEcho(xtcpAddr, label)
+	reply := make([]byte, len(x.payload))
+	for i := range x.payload {
+		reply[i] = x.payload[len(x.payload)-1-i] ^ 0x5a
+	}
+	be, err := startRecBackend(xtcpAddr, first, len(x.payload), reply)
 	if err != nil {
 		return false, 0, err
 	}
-	defer echo.Close()
+	defer be.l.Close()
 	const sk = "secret-key-of-the-xtcp-proxy"
 	clientCfg := &v1.ClientCommonConfig{}
 	clientCfg.Auth.Token = hx.DefaultToken // deliberately not the secret key
 	clientCfg.Complete()
 	pxyCfg := &v1.XTCPProxyConfig{Secretkey: sk}
 	pxyCfg.Name, pxyCfg.Type = "own.p2p", "xtcp"
-	pxyCfg.LocalIP, pxyCfg.LocalPort = xtcpAddr, echo.Port()
-	pxyCfg.Transport.UseEncryption, pxyCfg.Transport.UseCompression = ue, uc
+	pxyCfg.LocalIP, pxyCfg.LocalPort = xtcpAddr, be.port()
+	pxyCfg.Transport.UseEncryption, pxyCfg.Transport.UseCompression = x.pue, x.puc
 	p := proxy.NewProxy(ctx, pxyCfg, clientCfg, nil, nil)
 	if p == nil {
 		return false, 0, fmt.Errorf("no xtcp proxy")
@@ -338,16 +403,16 @@ func xtcpRoundTrip(protocol string, ue, uc, speaksFirst, userWritesFirst bool, p
 	}
 	ownerAddr := ownerUDP.LocalAddr().(*net.UDPAddr)
 	visitorAddr := visitorUDP.LocalAddr().(*net.UDPAddr)
-	go proxy.VerifC08XTCPListen(p, protocol, ownerUDP, visitorAddr, &msg.StartWorkConn{ProxyName: pxyCfg.Name})
+	go proxy.VerifC08XTCPListen(p, x.protocol, ownerUDP, visitorAddr, &msg.StartWorkConn{ProxyName: pxyCfg.Name})
 	defer ownerUDP.Close()
 	time.Sleep(200 * time.Millisecond) // the owner side (re)binds its socket
 
 	vcfg := &v1.XTCPVisitorConfig{}
 	vcfg.Name, vcfg.Type = "p2p-visitor", "xtcp"
 	vcfg.ServerName, vcfg.SecretKey = "own.p2p", sk
-	vcfg.Protocol = protocol
+	vcfg.Protocol = x.protocol
 	vcfg.BindPort = -1
-	vcfg.Transport.UseEncryption, vcfg.Transport.UseCompression = ue, uc
+	vcfg.Transport.UseEncryption, vcfg.Transport.UseCompression = x.vue, x.vuc
 	vcfg.Complete(clientCfg)
 	v, err := visitor.NewVisitor(ctx, vcfg, clientCfg, &c08Helper{})
 	if err != nil {
@@ -365,82 +430,136 @@ func xtcpRoundTrip(protocol string, ue, uc, speaksFirst, userWritesFirst bool, p
 	if err := v.AcceptConn(visSide); err != nil {
 		return false, 0, err
 	}
-	_ = userSide.SetDeadline(time.Now().Add(wait))
+	_ = userSide.SetDeadline(time.Now().Add(x.wait))
 	ok = true
-	// a quic stream becomes visible to the accepting side with its first byte only (quic-go OpenStreamSync), so over
-	// quic the user's bytes are under way before the banner is awaited; over kcp the user stays silent until it has
-	// read the banner
-	if userWritesFirst {
-		go func() { _, _ = userSide.Write(payload) }()
+	if !x.silent && len(x.payload) > 0 {
+		go func() { _, _ = userSide.Write(x.payload) }()
 	}
-	if speaksFirst {
+	if x.speaksFirst {
 		got := make([]byte, len(banner))
 		if _, e := io.ReadFull(userSide, got); e != nil || string(got) != banner {
 			ok = false
 		}
 	}
-	if ok && len(payload) > 0 {
-		if !userWritesFirst {
-			go func() { _, _ = userSide.Write(payload) }()
+	if ok && len(x.payload) > 0 {
+		if x.silent {
+			go func() { _, _ = userSide.Write(x.payload) }()
 		}
-		got := make([]byte, len(payload))
-		if _, e := io.ReadFull(userSide, got); e != nil || !bytes.Equal(got, payload) {
+		// what the backend received ...
+		select {
+		case rec := <-be.got:
+			if !bytes.Equal(rec, x.payload) {
+				ok = false
+			}
+		case <-time.After(x.wait):
 			ok = false
 		}
+		// ... and what comes back
+		if ok {
+			got := make([]byte, len(reply))
+			if _, e := io.ReadFull(userSide, got); e != nil || !bytes.Equal(got, reply) {
+				ok = false
+			}
+		}
 	}
-	return ok, echo.Count(), nil
+	return ok, be.count(), nil
 }
 
+const (
+	keyXtcpMismatch   = "xtcp:mismatched-encryption-compression-flags"
+	keyXtcpQuicSilent = "xtcp-quic:backend-first-silent-user"
+)
+
 func xtcpCases(g *gen, dist map[string]int, add func(string, []map[string]string)) error {
+	var runs []xtcpRun
+	mkPayload := func() []byte {
+		payload := g.Bytes(1 + g.Intn(30000))
+		if g.Chance(0.4) {
+			payload = append(payload, bytes.Repeat([]byte{0}, 40000)...) // compressible tail
+		}
+		return payload
+	}
+	// equal declarations at both ends, both protocols, all four flag pairs. Over kcp a speaking-first backend meets a
+	// silent user; over quic the user's bytes are under way before the banner is awaited (see F-C08e below)
+	for i := 0; i < 8; i++ {
+		quic, ue, uc := i&4 != 0, i&2 != 0, i&1 != 0
+		proto := "kcp"
+		if quic {
+			proto = "quic"
+		}
+		sf := g.Chance(0.5)
+		runs = append(runs, xtcpRun{proto, ue, uc, ue, uc, sf, sf && !quic, mkPayload(), 8 * time.Second})
+	}
+	// one kcp stream per run with a speaking-first backend and a silent user, whatever the coin said above
+	runs = append(runs, xtcpRun{"kcp", g.Chance(0.5), false, false, false, true, true, mkPayload(), 8 * time.Second})
+	runs[len(runs)-1].pue, runs[len(runs)-1].puc = runs[len(runs)-1].vue, runs[len(runs)-1].vuc
+	// F-C08d: the clause speaks of whatever the two ends declare: different declarations, three pairs per run
+	for k := 0; k < 3; k++ {
+		a, b := g.Intn(4), g.Intn(4)
+		for b == a {
+			b = g.Intn(4)
+		}
+		proto := "kcp"
+		if g.Chance(0.5) {
+			proto = "quic"
+		}
+		runs = append(runs, xtcpRun{proto, a&2 != 0, a&1 != 0, b&2 != 0, b&1 != 0, false, false, mkPayload()[:1+g.Intn(2000)], 1500 * time.Millisecond})
+	}
+	// F-C08e: quic, backend speaks first, user silent
+	runs = append(runs, xtcpRun{"quic", false, false, false, false, true, true, nil, 1200 * time.Millisecond})
+
 	type res struct {
 		cs    string
 		fails []map[string]string
 		err   error
 	}
-	out := make([]res, 8)
+	out := make([]res, len(runs))
 	var wg sync.WaitGroup
-	for i := 0; i < 8; i++ {
-		proto, ue, uc := i&4 != 0, i&2 != 0, i&1 != 0
-		speaksFirst := g.Chance(0.5)
-		payload := g.Bytes(1 + g.Intn(30000))
-		if g.Chance(0.4) {
-			payload = append(payload, bytes.Repeat([]byte{0}, 40000)...) // compressible tail
-		}
+	for i := range runs {
 		wg.Add(1)
 		go func(i int) {
 			defer wg.Done()
-			name := "kcp"
-			pz := 0
-			if proto {
-				name, pz = "quic", 1
-			}
-			ok, n, err := xtcpRoundTrip(name, ue, uc, speaksFirst, proto, payload, 8*time.Second)
+			x := runs[i]
+			ok, n, err := xtcpRoundTrip(x)
 			if err != nil {
-				out[i].err = fmt.Errorf("xtcp %s: %v", name, err)
+				out[i].err = fmt.Errorf("xtcp %s: %v", x.protocol, err)
 				return
 			}
-			cs := fmt.Sprintf("CXtcp %d %s %s %s %s %d", pz, hx.Bool(ue), hx.Bool(uc), hx.Bool(speaksFirst), hx.Bool(ok), n)
+			pz := 0
+			if x.protocol == "quic" {
+				pz = 1
+			}
+			cs := fmt.Sprintf("CXtcp %d %s %s %s %s %s %s %s %d", pz, hx.Bool(x.vue), hx.Bool(x.vuc), hx.Bool(x.pue), hx.Bool(x.puc),
+				hx.Bool(x.speaksFirst), hx.Bool(x.silent), hx.Bool(ok), n)
 			out[i].cs = cs
-			if !ok || n != 1 {
+			if ok && n == 1 {
+				return
+			}
+			mismatched := x.vue != x.pue || x.vuc != x.puc
+			switch {
+			case mismatched:
+				// recorded finding F-C08d, judged under its own key; nothing else is absorbed by it
+				out[i].fails = []map[string]string{{"key": keyXtcpMismatch,
+					"what": "an xtcp stream whose visitor and proxy declare different encryption/compression flags is not byte-transparent (single leg, each end applies its own flags)",
+					"case": cs}}
+			case x.protocol == "quic" && x.speaksFirst && x.silent:
+				out[i].fails = []map[string]string{{"key": keyXtcpQuicSilent,
+					"what": "over an xtcp tunnel in quic mode a backend that speaks first to a silent user is never contacted (the stream becomes visible to the proxy with the user's first byte only)",
+					"case": cs}}
+			default:
 				out[i].fails = []map[string]string{{"key": "xtcp:tunnel-stream-not-transparent",
-					"what": "bytes sent through the real xtcp visitor and the real XTCPProxy listen function (" + name + " tunnel, token different from the secret key) did not come back unchanged from the backend",
+					"what": "bytes sent through the real xtcp visitor and the real XTCPProxy listen function (" + x.protocol + " tunnel, equal flags at both ends, token different from the secret key) did not reach the backend or did not come back unchanged",
 					"case": cs}}
 			}
 		}(i)
 	}
-	// observation only (reported, not judged): over quic, a backend that speaks first to a user that stays silent
-	probe := make(chan string, 1)
-	go func() {
-		ok, n, err := xtcpRoundTrip("quic", false, false, true, false, nil, 1200*time.Millisecond)
-		probe <- fmt.Sprintf("banner-reached-silent-user=%v backend-conns=%d err=%v", ok, n, err)
-	}()
 	wg.Wait()
-	dist["observation:xtcp-quic-backend-first-silent-user:"+<-probe]++
 	for i := range out {
 		if out[i].err != nil {
 			return out[i].err
 		}
-		dist["xtcp:"+strings.Fields(out[i].cs)[1]+":ok="+strings.Fields(out[i].cs)[5]]++
+		f := strings.Fields(out[i].cs)
+		dist[fmt.Sprintf("xtcp:proto=%s:flags-equal=%v:first=%s:silent=%s:ok=%s", f[1], f[2] == f[4] && f[3] == f[5], f[6], f[7], f[8])]++
 		add(out[i].cs, out[i].fails)
 	}
 	return nil
